@@ -113,6 +113,8 @@ MUTANTS = [
       "    new_shares = new_shares - used_shares\n", "C07.4"),
     M("phase2-minus-all-readonly-shares", HU, "    new_shares = shares - used_shares\n", "    new_shares = shares - readonly_shares\n", "C07.4"),
     M("phase3-peers-keep-matched", HU, "    new_peers = new_peers - existing_peers - used_peers\n", "    new_peers = new_peers - used_peers\n", "C07.4"),
+    M("phase3-peers-keep-matched-repaired-tree", HU, "    new_peers = set(peers) - existing_peers - used_peers\n",
+      "    new_peers = set(peers) - used_peers\n", "C07.4"),
     M("empty-value-kept", HU, "        k: v.pop() if v else next(peer_iter)\n", "        k: v.pop() if v else None\n", "C07.4"),
     M("homeless-test-flipped", HU, "        if mappings[share] is None:\n            homeless_shares.add(share)",
       "        if mappings[share] is not None:\n            homeless_shares.add(share)", "C07.4"),
@@ -322,13 +324,36 @@ MUTANTS = [
       "            if not placements:\n                break\n            yield defer.DeferredList(placements)\n", None),
 
     # ---- C07.12 a server that rejected its allocation leaves the next placement
-    # (the pinned tree has this defect: _make_readonly does not tell the peer selector; the first variant is anchored to the
-    # repaired text and is skipped until the repair is applied)
+    # (found by this rule on the pinned tree and repaired there: _make_readonly now tells the peer selector)
     M("demote-without-telling-selector", UP,
-      "                readonly_trackers.append(tracker)\n            try:\n                self.peer_selector.mark_readonly_peer(tracker.get_serverid())\n"
-      "            except KeyError:\n                pass\n            return None\n",
-      "                readonly_trackers.append(tracker)\n            return None\n", "C07.12",
-      note="re-introduces the defect on the repaired tree"),
+      "            serverid = tracker.get_serverid()\n            if serverid in self.peer_selector.peers:\n"
+      "                self.peer_selector.mark_readonly_peer(serverid)\n            return None\n",
+      "            return None\n", "C07.12",
+      note="re-introduces the defect: 4 writable servers, one full, N=3, happy=3 -> the full server is asked twice for the "
+           "same share, a free server never, UploadUnhappinessError"),
+    M("demote-tells-only-when-already-readonly", UP, "            if serverid in self.peer_selector.peers:\n",
+      "            if serverid in self.peer_selector.readonly_peers:\n", "C07.12"),
+    M("demote-tells-about-another-server", UP,
+      "            if serverid in self.peer_selector.peers:\n                self.peer_selector.mark_readonly_peer(serverid)\n",
+      "            if tracker in self.peer_selector.peers:\n                self.peer_selector.mark_readonly_peer(serverid)\n", "C07.12",
+      note="a tracker object is never a member of the id set: the selector is never told"),
+    M("demote-unbound-server-id", UP,
+      "            serverid = tracker.get_serverid()\n            if serverid in self.peer_selector.peers:\n",
+      "            if serverid in self.peer_selector.peers:\n", "C07.12",
+      note="sweep survivor: NameError inside the callback is swallowed by the DeferredList, the selector is never told"),
+    M("demote-callback-not-registered", UP,
+      "                    d.addCallback(lambda x, tr: _make_readonly(tr) if not x else x, tracker)\n", "", "ANALYSIS-ERROR",
+      note="sweep survivor (dropped callback): nothing demotes a tracker any more - the rule refuses to pass vacuously"),
+    M("demote-benign-try-except-form", UP,
+      "            if serverid in self.peer_selector.peers:\n                self.peer_selector.mark_readonly_peer(serverid)\n",
+      "            try:\n                self.peer_selector.mark_readonly_peer(serverid)\n            except KeyError:\n                pass\n", None,
+      note="silent for this rule (the selector is told on every way); it is the weaker repair - a bad peer would be added to "
+           "readonly_peers before the remove raises"),
+    M("demote-benign-guard-hoisted", UP,
+      "            serverid = tracker.get_serverid()\n            if serverid in self.peer_selector.peers:\n"
+      "                self.peer_selector.mark_readonly_peer(serverid)\n",
+      "            sel = self.peer_selector\n            if tracker.get_serverid() not in sel.peers:\n                return None\n"
+      "            sel.mark_readonly_peer(tracker.get_serverid())\n", None),
     M("demote-benign-told-in-buckets-allocated", UP,
       "                self._query_stats.full += 1\n                self._query_stats.bad += 1\n",
       "                self._query_stats.full += 1\n                self._query_stats.bad += 1\n"
